@@ -69,6 +69,13 @@ Ltac dm := match goal with
   end.
 
 (* ---------- descriptor layer ---------- *)
+(* generic in the event class: only TFatal / TCrash / TKClose are ever appended *)
+Section Inner.
+Variable P : tev -> Prop.
+Hypothesis HF : P TFatal.
+Hypothesis HC : P TCrash.
+Hypothesis HK : forall fd, P (TKClose fd).
+Ltac pcl := first [exact HF | exact HC | apply HK].
 Lemma ctl_retry_trace : forall s op fd ev d s1 r, ctl_retry s op fd ev d = (s1, r) -> trace s1 = trace s.
 Proof.
   intros s op fd ev d s1 r. unfold ctl_retry.
@@ -86,73 +93,73 @@ Proof.
   destruct r; intros E; inversion E; subst; exact C.
 Qed.
 
-Lemma flush_one_ext : forall s k, RExt ca s (epoll_flush_one s k).
+Lemma flush_one_ext_g : forall s k, RExt P s (epoll_flush_one s k).
 Proof.
   intros s k. unfold epoll_flush_one. destruct (epoll_flush_one_ s k) as [s1 b] eqn:E.
   apply flush_one__trace in E. destruct b.
-  - eapply RExt_l; [exact E|]. apply RExt_halt. exact I.
+  - eapply RExt_l; [exact E|]. apply RExt_halt. pcl.
   - apply TrExt_same. exact E.
 Qed.
 
-Lemma flush_pending_ext : forall fuel s, RExt ca s (epoll_flush_pending fuel s).
+Lemma flush_pending_ext_g : forall fuel s, RExt P s (epoll_flush_pending fuel s).
 Proof.
   induction fuel as [|f IH]; intros s; cbn [epoll_flush_pending]; destruct (notify s).
   - apply TrExt_refl.
-  - apply RExt_halt. exact I.
+  - apply RExt_halt. pcl.
   - apply TrExt_refl.
-  - apply RExt_bind; [apply flush_one_ext|apply IH].
+  - apply RExt_bind; [apply flush_one_ext_g|apply IH].
 Qed.
 
 Lemma epoll_notify_trace : forall s k, trace (epoll_notify_fd s k) = trace s.
 Proof. intros s k. unfold epoll_notify_fd. dm; reflexivity. Qed.
 
-Lemma epoll_unregister_ext : forall s k, RExt ca s (epoll_unregister_fd s k).
-Proof. intros s k. unfold epoll_unregister_fd. dm; [apply flush_one_ext|apply TrExt_refl]. Qed.
+Lemma epoll_unregister_ext_g : forall s k, RExt P s (epoll_unregister_fd s k).
+Proof. intros s k. unfold epoll_unregister_fd. dm; [apply flush_one_ext_g|apply TrExt_refl]. Qed.
 
-Lemma poll_notify_ext : forall s k, RExt ca s (poll_notify_fd s k).
+Lemma poll_notify_ext_g : forall s k, RExt P s (poll_notify_fd s k).
 Proof.
   intros s k. unfold poll_notify_fd.
-  repeat dm; try (apply RExt_halt; exact I); apply TrExt_same; reflexivity.
+  repeat dm; try (apply RExt_halt; pcl); apply TrExt_same; reflexivity.
 Qed.
 
-Lemma poll_notify_sync_ext : forall s k, RExt ca s (fst (poll_notify_fd_sync s k)).
-Proof. intros s k. unfold poll_notify_fd_sync. dm; cbn [fst]; [apply TrExt_refl|apply poll_notify_ext]. Qed.
+Lemma poll_notify_sync_ext_g : forall s k, RExt P s (fst (poll_notify_fd_sync s k)).
+Proof. intros s k. unfold poll_notify_fd_sync. dm; cbn [fst]; [apply TrExt_refl|apply poll_notify_ext_g]. Qed.
 
-Lemma m_notify_ext : forall s k, RExt ca s (m_notify_fd s k).
+Lemma m_notify_ext_g : forall s k, RExt P s (m_notify_fd s k).
 Proof.
-  intros s k. unfold m_notify_fd. dm; [apply TrExt_same; apply epoll_notify_trace|apply poll_notify_ext].
+  intros s k. unfold m_notify_fd. dm; [apply TrExt_same; apply epoll_notify_trace|apply poll_notify_ext_g].
 Qed.
 
-Lemma notify_fd_ext : forall s k, RExt ca s (notify_fd s k).
-Proof. intros s k. unfold notify_fd. eapply RExt_l; [|apply m_notify_ext]. reflexivity. Qed.
+Lemma notify_fd_ext_g : forall s k, RExt P s (notify_fd s k).
+Proof. intros s k. unfold notify_fd. eapply RExt_l; [|apply m_notify_ext_g]. reflexivity. Qed.
 
 Lemma prologue_trace : forall s k, trace (register_prologue s k) = trace s.
 Proof. reflexivity. Qed.
 
-Lemma fd_register_ext : forall s k, RExt ca s (fd_register s k).
+Lemma fd_register_ext_g : forall s k, RExt P s (fd_register s k).
 Proof.
   intros s k. unfold fd_register. apply RExt_bind.
-  - eapply RExt_l; [|apply notify_fd_ext]. reflexivity.
+  - eapply RExt_l; [|apply notify_fd_ext_g]. reflexivity.
   - intros s1. apply TrExt_same. reflexivity.
 Qed.
 
-Lemma fd_unregister_ext : forall s k, RExt ca s (fd_unregister s k).
+Lemma fd_unregister_ext_g : forall s k, RExt P s (fd_unregister s k).
 Proof.
   intros s k. unfold fd_unregister. apply RExt_bind.
-  - eapply RExt_l; [|apply notify_fd_ext]. reflexivity.
+  - eapply RExt_l; [|apply notify_fd_ext_g]. reflexivity.
   - intros s1. apply RExt_bind.
-    + dm; [apply epoll_unregister_ext|apply TrExt_refl].
+    + dm; [apply epoll_unregister_ext_g|apply TrExt_refl].
     + intros s2. apply TrExt_same. repeat dm; reflexivity.
 Qed.
 
-Lemma fd_set_handler_ext : forall s k b h, RExt ca s (fd_set_handler s k b h).
+Lemma fd_set_handler_ext_g : forall s k b h, RExt P s (fd_set_handler s k b h).
 Proof.
   intros s k b h. unfold fd_set_handler. dm.
-  - eapply RExt_l; [|apply notify_fd_ext]. reflexivity.
+  - eapply RExt_l; [|apply notify_fd_ext_g]. reflexivity.
   - apply TrExt_same. reflexivity.
 Qed.
 
-Lemma fd_register_try_ext : forall s k, RExt ca s (fst (fd_register_try s k)).
+Lemma fd_register_try_ext_g : forall s k, RExt P s (fst (fd_register_try s k)).
 Proof.
   intros s k. unfold fd_register_try.
   set (s1 := register_prologue s k).
@@ -166,19 +173,19 @@ Proof.
     destruct fl; cbn [fst].
     + cbn [bind]. eapply RExt_l with (s := s4); [congruence|].
       dm; [|apply TrExt_same; reflexivity].
-      eapply RExt_l; [|apply epoll_unregister_ext]. reflexivity.
+      eapply RExt_l; [|apply epoll_unregister_ext_g]. reflexivity.
     + cbn [bind]. eapply RExt_l with (s := s4); [congruence|].
       apply RExt_bind; [|intros; apply TrExt_same; reflexivity].
-      dm; [|apply TrExt_refl]. eapply RExt_l; [|apply m_notify_ext]. reflexivity.
-  - pose proof (poll_notify_sync_ext s3 k) as Q.
+      dm; [|apply TrExt_refl]. eapply RExt_l; [|apply m_notify_ext_g]. reflexivity.
+  - pose proof (poll_notify_sync_ext_g s3 k) as Q.
     destruct (poll_notify_fd_sync s3 k) as [r fl]. cbn [fst] in Q.
     destruct fl; cbn [fst].
     + eapply RExt_l with (s := s3); [exact T3|]. apply RExt_bind; [exact Q|].
       intros s4. dm; [|apply TrExt_same; reflexivity].
-      eapply RExt_l; [|apply epoll_unregister_ext]. reflexivity.
+      eapply RExt_l; [|apply epoll_unregister_ext_g]. reflexivity.
     + eapply RExt_l with (s := s3); [exact T3|]. apply RExt_bind; [exact Q|].
       intros s4. apply RExt_bind; [|intros; apply TrExt_same; reflexivity].
-      dm; [|apply TrExt_refl]. eapply RExt_l; [|apply m_notify_ext]. reflexivity.
+      dm; [|apply TrExt_refl]. eapply RExt_l; [|apply m_notify_ext_g]. reflexivity.
 Qed.
 
 Lemma make_ready_trace : forall s k b, trace (make_ready s k b) = trace s.
@@ -204,30 +211,30 @@ Proof.
   destruct (to_relative s a) as [s1 [r|]]; exact H.
 Qed.
 
-Lemma lift_heap_ext : forall s o, RExt ca s (lift_heap s o).
-Proof. intros s [h|h|]; cbn [lift_heap]; [apply TrExt_same; reflexivity|apply RExt_halt; exact I|apply RExt_halt; exact I]. Qed.
+Lemma lift_heap_ext_g : forall s o, RExt P s (lift_heap s o).
+Proof. intros s [h|h|]; cbn [lift_heap]; [apply TrExt_same; reflexivity|apply RExt_halt; pcl|apply RExt_halt; pcl]. Qed.
 
 Lemma task_register_trace : forall s k, trace (task_register s k) = trace s.
 Proof. intros. unfold task_register. repeat dm; reflexivity. Qed.
 
-Lemma do_close_ext : forall s fd, TrExt ca s (do_close s fd).
+Lemma do_close_ext_g : forall s fd, TrExt P s (do_close s fd).
 Proof.
   intros s fd. unfold do_close. destruct (k_close (kern s) fd) as [k1 ok]. destruct ok.
-  - eapply TrExt_l; [|apply TrExt_emit; exact I]. reflexivity.
+  - eapply TrExt_l; [|apply TrExt_emit; pcl]. reflexivity.
   - apply TrExt_same. reflexivity.
 Qed.
 
-Lemma raw_tail_ext : forall s0 s j rfd wfd, trace s = trace s0 ->
-  RExt ca s0 (bind (fd_register (putfd s (RAW_KEY j) (fd_with_handlers (fd_fresh rfd (1000 + j)) (Some (H_RAW j)) None None)) (RAW_KEY j))
+Lemma raw_tail_ext_g : forall s0 s j rfd wfd, trace s = trace s0 ->
+  RExt P s0 (bind (fd_register (putfd s (RAW_KEY j) (fd_with_handlers (fd_fresh rfd (1000 + j)) (Some (H_RAW j)) None None)) (RAW_KEY j))
                 (fun s => R (set_rw s (upd (rw_reg s) j true) (upd (rw_rfd s) j rfd) (upd (rw_wfd s) j wfd)))).
 Proof.
   intros s0 s j rfd wfd T. eapply RExt_l with (s := s); [exact T|]. apply RExt_bind.
-  - eapply RExt_l; [|apply fd_register_ext]. reflexivity.
+  - eapply RExt_l; [|apply fd_register_ext_g]. reflexivity.
   - intros s3. apply TrExt_same. reflexivity.
 Qed.
 
-Lemma raw_stage2_ext : forall s0 s j, trace s = trace s0 ->
-  RExt ca s0 (fst (let '(s, got, failed) :=
+Lemma raw_stage2_ext_g : forall s0 s j, trace s = trace s0 ->
+  RExt P s0 (fst (let '(s, got, failed) :=
         if efd_raw s =? 0 then
           match k_pipe (kern s) with
           | (k1, Some (r, w)) => (set_kern s k1, Some (r, w), false)
@@ -246,29 +253,29 @@ Lemma raw_stage2_ext : forall s0 s j, trace s = trace s0 ->
 Proof.
   intros s0 s j T. destruct (efd_raw s =? 0).
   - destruct (k_pipe (kern s)) as [k1 [[r w]|]]; cbv beta iota; cbn [fst].
-    + apply raw_tail_ext. exact T.
+    + apply raw_tail_ext_g. exact T.
     + apply TrExt_same. exact T.
   - cbv beta iota. cbn [fst]. apply TrExt_same. exact T.
 Qed.
 
-Lemma raw_register_ext : forall s j, RExt ca s (fst (raw_register s j)).
+Lemma raw_register_ext_g : forall s j, RExt P s (fst (raw_register s j)).
 Proof.
   intros s j. unfold raw_register.
   destruct (negb (efd_raw s =? 0)).
   - destruct (eventfd_grab (kern s) (efd_raw s)) as [[k1 [fd|e]] u]; cbv beta iota.
-    + cbn [fst]. apply raw_tail_ext. reflexivity.
+    + cbn [fst]. apply raw_tail_ext_g. reflexivity.
     + destruct (negb (is_enosys e)); [cbn [fst]; apply TrExt_same; reflexivity|].
-      apply raw_stage2_ext. reflexivity.
-  - cbv beta iota. apply raw_stage2_ext. reflexivity.
+      apply raw_stage2_ext_g. reflexivity.
+  - cbv beta iota. apply raw_stage2_ext_g. reflexivity.
 Qed.
 
-Lemma raw_unregister_ext : forall s j, RExt ca s (raw_unregister s j).
+Lemma raw_unregister_ext_g : forall s j, RExt P s (raw_unregister s j).
 Proof.
-  intros s j. unfold raw_unregister. apply RExt_bind; [apply fd_unregister_ext|].
+  intros s j. unfold raw_unregister. apply RExt_bind; [apply fd_unregister_ext_g|].
   intros s1. set (s2 := do_close s1 (rw_rfd s1 j)).
-  assert (E2 : TrExt ca s1 s2) by apply do_close_ext.
+  assert (E2 : TrExt P s1 s2) by apply do_close_ext_g.
   eapply RExt_tr; [exact E2|]. dm.
-  - eapply RExt_tr; [apply do_close_ext|]. apply TrExt_same. reflexivity.
+  - eapply RExt_tr; [apply do_close_ext_g|]. apply TrExt_same. reflexivity.
   - apply TrExt_same. reflexivity.
 Qed.
 
@@ -276,37 +283,37 @@ Lemma raw_post_trace : forall s j, trace (raw_post s j) = trace s.
 Proof. intros. unfold raw_post. destruct (if efd_raw s =? 0 then _ else _) as [k1 x]. reflexivity. Qed.
 
 (* ---------- events ---------- *)
-Lemma event_rx_on_ext : forall s, RExt ca s (fst (event_rx_on s)).
+Lemma event_rx_on_ext_g : forall s, RExt P s (fst (event_rx_on s)).
 Proof.
   intros s. unfold event_rx_on.
-  match goal with |- RExt ca s (fst (match ?X with R _ => _ | Halt _ => _ end)) =>
-    assert (Q : RExt ca s X); [|destruct X as [s1|s1]] end.
+  match goal with |- RExt P s (fst (match ?X with R _ => _ | Halt _ => _ end)) =>
+    assert (Q : RExt P s X); [|destruct X as [s1|s1]] end.
   { destruct (active_ref s =? 0); [|apply TrExt_refl].
     destruct (eventfd_grab (kern s) (efd_epoll s)) as [[k1 [fd|e]] u].
     - destruct (k_write k1 fd 8 1) as [k2 x]. apply TrExt_same. reflexivity.
     - cbv zeta. destruct (k_pipe _) as [k2 [[r w]|]].
       + destruct (k_write k2 w 1 0) as [k3 [n|e3]]; [apply TrExt_same; reflexivity|].
-        eapply RExt_l; [|apply RExt_halt; exact I]. reflexivity.
-      + eapply RExt_l; [|apply RExt_halt; exact I]. reflexivity. }
+        eapply RExt_l; [|apply RExt_halt; pcl]. reflexivity.
+      + eapply RExt_l; [|apply RExt_halt; pcl]. reflexivity. }
   - cbv zeta. destruct (ctl_retry _ _ _ _ _) as [s2 e] eqn:C. apply ctl_retry_trace in C.
     destruct e; cbn [fst]; (eapply TrExt_trans; [exact Q|]); apply TrExt_same; rewrite ?C; exact C.
   - cbn [fst]. exact Q.
 Qed.
 
-Lemma event_rx_off_ext : forall s, RExt ca s (event_rx_off s).
+Lemma event_rx_off_ext_g : forall s, RExt P s (event_rx_off s).
 Proof.
   intros s. unfold event_rx_off.
   destruct (ctl_retry _ _ _ _ _) as [s1 e] eqn:C. apply ctl_retry_trace in C.
-  destruct e; [eapply RExt_l; [exact C|]; apply RExt_halt; exact I|].
+  destruct e; [eapply RExt_l; [exact C|]; apply RExt_halt; pcl|].
   cbv zeta. set (s2 := set_activefd s1 _ _).
   eapply RExt_l with (s := s2); [exact C|].
   destruct (active_ref s2 =? 0); [|apply TrExt_same; reflexivity].
-  eapply RExt_tr; [apply do_close_ext|].
+  eapply RExt_tr; [apply do_close_ext_g|].
   dm; [apply TrExt_same; reflexivity|].
-  eapply RExt_tr; [apply do_close_ext|]. apply TrExt_same. reflexivity.
+  eapply RExt_tr; [apply do_close_ext_g|]. apply TrExt_same. reflexivity.
 Qed.
 
-Lemma event_register_ext : forall s j, RExt ca s (fst (event_register s j)).
+Lemma event_register_ext_g : forall s j, RExt P s (fst (event_register s j)).
 Proof.
   intros s j. unfold event_register. cbv zeta.
   set (s0 := set_ev (set_numobjs s (numobjs s + 1)) _ _ _).
@@ -314,8 +321,8 @@ Proof.
   destruct (ev_count (set_numobjs s (numobjs s + 1)) =? 0).
   2:{ cbn [fst bind]. apply TrExt_same. reflexivity. }
   (* first registration *)
-  assert (ST : forall (r : res) (su : bool), RExt ca s r ->
-    RExt ca s (fst (let '(r0, failed) :=
+  assert (ST : forall (r : res) (su : bool), RExt P s r ->
+    RExt P s (fst (let '(r0, failed) :=
           match r with
           | Halt s1 => (Halt s1, false)
           | R s1 =>
@@ -331,13 +338,13 @@ Proof.
         else (bind r0 (fun s => R (set_ev s (ev_count s) (upd (ev_reg s) j true) (use_raw s))), false)))).
   { intros r su Q. destruct r as [s1|s1]; [|cbn [fst bind]; exact Q].
     destruct (use_raw s1).
-    - pose proof (raw_register_ext s1 KICK_RAW) as Q2.
+    - pose proof (raw_register_ext_g s1 KICK_RAW) as Q2.
       destruct (raw_register s1 KICK_RAW) as [[s2|s2] fl]; cbn [fst] in Q2; destruct fl; cbn [fst bind];
         (eapply RExt_tr; [exact Q|]; exact Q2).
     - cbn [fst bind]. eapply TrExt_trans; [exact Q|]. apply TrExt_same. reflexivity. }
   destruct (negb (use_raw s0)).
   - destruct (is_epoll s0).
-    + pose proof (event_rx_on_ext s0) as Q.
+    + pose proof (event_rx_on_ext_g s0) as Q.
       destruct (event_rx_on s0) as [[s1|s1] fl]; cbn [fst] in Q; [destruct fl|].
       * apply (ST (R _) true). eapply RExt_l with (s := s0); [exact T0|].
         eapply TrExt_trans; [exact Q|]. apply TrExt_same. reflexivity.
@@ -347,13 +354,13 @@ Proof.
   - apply (ST (R s0) true). apply TrExt_same. reflexivity.
 Qed.
 
-Lemma event_unregister_ext : forall s j, RExt ca s (event_unregister s j).
+Lemma event_unregister_ext_g : forall s j, RExt P s (event_unregister s j).
 Proof.
   intros s j. unfold event_unregister. cbv zeta.
   set (s0 := set_ev _ _ _ _). assert (T0 : trace s0 = trace s) by reflexivity.
   eapply RExt_l with (s := s0); [exact T0|]. apply RExt_bind.
   - destruct (ev_count s0 =? 0); [|apply TrExt_refl].
-    destruct (use_raw s0); [apply raw_unregister_ext|apply event_rx_off_ext].
+    destruct (use_raw s0); [apply raw_unregister_ext_g|apply event_rx_off_ext_g].
   - intros s1. apply TrExt_same. reflexivity.
 Qed.
 
@@ -363,6 +370,70 @@ Proof.
   match goal with |- trace (if ?c then _ else _) = _ => destruct c end;
     [rewrite task_register_trace|]; reflexivity.
 Qed.
+
+End Inner.
+
+(* the instances for the class of an action *)
+Lemma flush_one_ext : forall s k, RExt ca s (epoll_flush_one s k).
+Proof. intros; apply flush_one_ext_g; first [exact I | intros; exact I | assumption]. Qed.
+Lemma flush_pending_ext : forall fuel s, RExt ca s (epoll_flush_pending fuel s).
+Proof. intros; apply flush_pending_ext_g; first [exact I | intros; exact I | assumption]. Qed.
+Lemma epoll_unregister_ext : forall s k, RExt ca s (epoll_unregister_fd s k).
+Proof. intros; apply epoll_unregister_ext_g; first [exact I | intros; exact I | assumption]. Qed.
+Lemma poll_notify_ext : forall s k, RExt ca s (poll_notify_fd s k).
+Proof. intros; apply poll_notify_ext_g; first [exact I | intros; exact I | assumption]. Qed.
+Lemma poll_notify_sync_ext : forall s k, RExt ca s (fst (poll_notify_fd_sync s k)).
+Proof. intros; apply poll_notify_sync_ext_g; first [exact I | intros; exact I | assumption]. Qed.
+Lemma m_notify_ext : forall s k, RExt ca s (m_notify_fd s k).
+Proof. intros; apply m_notify_ext_g; first [exact I | intros; exact I | assumption]. Qed.
+Lemma notify_fd_ext : forall s k, RExt ca s (notify_fd s k).
+Proof. intros; apply notify_fd_ext_g; first [exact I | intros; exact I | assumption]. Qed.
+Lemma fd_register_ext : forall s k, RExt ca s (fd_register s k).
+Proof. intros; apply fd_register_ext_g; first [exact I | intros; exact I | assumption]. Qed.
+Lemma fd_unregister_ext : forall s k, RExt ca s (fd_unregister s k).
+Proof. intros; apply fd_unregister_ext_g; first [exact I | intros; exact I | assumption]. Qed.
+Lemma fd_set_handler_ext : forall s k b h, RExt ca s (fd_set_handler s k b h).
+Proof. intros; apply fd_set_handler_ext_g; first [exact I | intros; exact I | assumption]. Qed.
+Lemma fd_register_try_ext : forall s k, RExt ca s (fst (fd_register_try s k)).
+Proof. intros; apply fd_register_try_ext_g; first [exact I | intros; exact I | assumption]. Qed.
+Lemma lift_heap_ext : forall s o, RExt ca s (lift_heap s o).
+Proof. intros; apply lift_heap_ext_g; first [exact I | intros; exact I | assumption]. Qed.
+Lemma do_close_ext : forall s fd, TrExt ca s (do_close s fd).
+Proof. intros; apply do_close_ext_g; first [exact I | intros; exact I | assumption]. Qed.
+Lemma raw_tail_ext : forall s0 s j rfd wfd, trace s = trace s0 ->
+  RExt ca s0 (bind (fd_register (putfd s (RAW_KEY j) (fd_with_handlers (fd_fresh rfd (1000 + j)) (Some (H_RAW j)) None None)) (RAW_KEY j))
+                (fun s => R (set_rw s (upd (rw_reg s) j true) (upd (rw_rfd s) j rfd) (upd (rw_wfd s) j wfd)))).
+Proof. intros; apply raw_tail_ext_g; first [exact I | intros; exact I | assumption]. Qed.
+Lemma raw_stage2_ext : forall s0 s j, trace s = trace s0 ->
+  RExt ca s0 (fst (let '(s, got, failed) :=
+        if efd_raw s =? 0 then
+          match k_pipe (kern s) with
+          | (k1, Some (r, w)) => (set_kern s k1, Some (r, w), false)
+          | (k1, None) => (set_kern s k1, None, true)
+          end
+        else (s, None, true) in
+      match got with
+      | None => (R s, true)
+      | Some (rfd, wfd) =>
+          let key := RAW_KEY j in
+          let f := fd_with_handlers (fd_fresh rfd (1000 + j)) (Some (H_RAW j)) None None in
+          let s := putfd s key f in
+          (bind (fd_register s key) (fun s =>
+             R (set_rw s (upd (rw_reg s) j true) (upd (rw_rfd s) j rfd) (upd (rw_wfd s) j wfd))), false)
+      end)).
+Proof. intros; apply raw_stage2_ext_g; first [exact I | intros; exact I | assumption]. Qed.
+Lemma raw_register_ext : forall s j, RExt ca s (fst (raw_register s j)).
+Proof. intros; apply raw_register_ext_g; first [exact I | intros; exact I | assumption]. Qed.
+Lemma raw_unregister_ext : forall s j, RExt ca s (raw_unregister s j).
+Proof. intros; apply raw_unregister_ext_g; first [exact I | intros; exact I | assumption]. Qed.
+Lemma event_rx_on_ext : forall s, RExt ca s (fst (event_rx_on s)).
+Proof. intros; apply event_rx_on_ext_g; first [exact I | intros; exact I | assumption]. Qed.
+Lemma event_rx_off_ext : forall s, RExt ca s (event_rx_off s).
+Proof. intros; apply event_rx_off_ext_g; first [exact I | intros; exact I | assumption]. Qed.
+Lemma event_register_ext : forall s j, RExt ca s (fst (event_register s j)).
+Proof. intros; apply event_register_ext_g; first [exact I | intros; exact I | assumption]. Qed.
+Lemma event_unregister_ext : forall s j, RExt ca s (event_unregister s j).
+Proof. intros; apply event_unregister_ext_g; first [exact I | intros; exact I | assumption]. Qed.
 
 (* ---------- actions ---------- *)
 Lemma emit_act_ext : forall s a, TrExt ca s (emit s (TAct a)).
@@ -427,6 +498,79 @@ Lemma run_acts_ext : forall l s, RExt ca s (run_acts s l).
 Proof.
   induction l as [|a l IH]; intros s; cbn [run_acts]; [apply TrExt_refl|].
   apply RExt_bind; [apply do_action_ext|apply IH].
+Qed.
+
+(* the only actions an action logs are itself (a relative timer registration is logged resolved) *)
+Definition cact (a : action) (e : tev) : Prop :=
+  match e with
+  | TAct x => x = a \/ (exists j d e', a = ATmRegRel j d /\ x = ATmRegAbs j e')
+  | TRes _ _ _ | TKClose _ | TFatal | TCrash => True
+  | _ => False
+  end.
+
+Lemma cact_ca : forall a e, cact a e -> ca e.
+Proof. intros a e. destruct e; cbn; tauto. Qed.
+
+Lemma cact_self : forall a, cact a (TAct a).
+Proof. intros. left. reflexivity. Qed.
+
+Lemma RExt_after_a : forall a s r, RExt (cact a) (emit s (TAct a)) r -> RExt (cact a) s r.
+Proof. intros a s r H. eapply RExt_tr; [apply TrExt_emit; apply cact_self|exact H]. Qed.
+
+Lemma RExt_res_a : forall a s r kind id (failed : bool), RExt (cact a) s r ->
+  RExt (cact a) s (bind r (fun s => R (emit s (TRes kind id (if failed then -1 else 0))))).
+Proof. intros. apply RExt_bind; [assumption|]. intros s1. apply TrExt_emit. exact I. Qed.
+
+Lemma TrExt_log_a : forall a s s', trace s' = trace (emit s (TAct a)) -> TrExt (cact a) s s'.
+Proof. intros a s s' E. eapply TrExt_trans; [apply TrExt_emit; apply cact_self|apply TrExt_same; exact E]. Qed.
+
+Lemma do_action_ext_a : forall s a, RExt (cact a) s (do_action s a).
+Proof.
+  intros s a.
+  assert (HF : cact a TFatal) by exact I. assert (HC : cact a TCrash) by exact I.
+  assert (HK : forall fd, cact a (TKClose fd)) by (intros; exact I).
+  destruct a; cbn [do_action].
+  - repeat dm; try apply TrExt_refl. apply RExt_after_a. apply fd_register_ext_g; assumption.
+  - dm; [apply TrExt_refl|].
+    assert (Q : RExt (cact (AFdTry i)) (emit s (TAct (AFdTry i))) (fst (fd_register_try (emit s (TAct (AFdTry i))) i))) by (apply fd_register_try_ext_g; assumption).
+    destruct (fd_register_try _ i) as [r failed]. cbn [fst] in Q.
+    apply RExt_res_a. apply RExt_after_a. exact Q.
+  - dm; [apply RExt_after_a; apply fd_unregister_ext_g; assumption|apply TrExt_refl].
+  - apply RExt_after_a. apply fd_set_handler_ext_g; assumption.
+  - apply TrExt_log_a. reflexivity.
+  - dm; [apply TrExt_refl|]. apply TrExt_log_a. reflexivity.
+  - apply TrExt_log_a. reflexivity.
+  - dm; [apply TrExt_refl|]. apply TrExt_log_a. reflexivity.
+  - apply TrExt_log_a. reflexivity.
+  - dm; [apply TrExt_refl|]. apply RExt_after_a. apply lift_heap_ext_g; assumption.
+  - dm; [apply TrExt_refl|]. cbv zeta.
+    eapply RExt_tr with (s1 := emit (validate_now s) (TAct (ATmRegAbs j (time (validate_now s) + d)))).
+    + eapply TrExt_l with (s := validate_now s); [apply validate_trace|]. apply TrExt_emit.
+      right. exists j, d, (time (validate_now s) + d). split; reflexivity.
+    + apply lift_heap_ext_g; assumption.
+  - dm; [apply RExt_after_a; apply lift_heap_ext_g; assumption|apply TrExt_refl].
+  - dm; [apply TrExt_refl|apply TrExt_log_a; reflexivity].
+  - dm; [apply TrExt_refl|]. apply TrExt_log_a. apply task_register_trace.
+  - dm; [|apply TrExt_refl]. apply TrExt_log_a. reflexivity.
+  - dm; [apply TrExt_refl|]. apply TrExt_log_a. reflexivity.
+  - dm; [apply TrExt_refl|].
+    assert (Q : RExt (cact (AEvReg j)) (emit s (TAct (AEvReg j))) (fst (event_register (emit s (TAct (AEvReg j))) j))) by (apply event_register_ext_g; assumption).
+    destruct (event_register _ j) as [r failed]. cbn [fst] in Q.
+    apply RExt_res_a. apply RExt_after_a. exact Q.
+  - dm; [apply RExt_after_a; apply event_unregister_ext_g; assumption|apply TrExt_refl].
+  - dm; [|apply TrExt_refl]. apply TrExt_log_a. apply event_post_trace.
+  - dm; [apply TrExt_refl|apply TrExt_log_a; reflexivity].
+  - dm; [apply TrExt_refl|].
+    assert (Q : RExt (cact (ARwReg j)) (emit s (TAct (ARwReg j))) (fst (raw_register (emit s (TAct (ARwReg j))) j))) by (apply raw_register_ext_g; assumption).
+    destruct (raw_register _ j) as [r failed]. cbn [fst] in Q.
+    apply RExt_res_a. apply RExt_after_a. exact Q.
+  - dm; [apply RExt_after_a; apply raw_unregister_ext_g; assumption|apply TrExt_refl].
+  - dm; [|apply TrExt_refl]. apply TrExt_log_a. apply raw_post_trace.
+  - dm; [apply TrExt_refl|apply TrExt_log_a; reflexivity].
+  - apply TrExt_log_a. reflexivity.
+  - apply TrExt_log_a. reflexivity.
+  - apply TrExt_log_a. reflexivity.
+  - apply TrExt_log_a. apply validate_trace.
 Qed.
 
 (* ---------- the loop ---------- *)
